@@ -120,7 +120,7 @@ theorem parseDocs_step {prev : Option Doc} {d : Doc} (h : docOk prev d = true) :
     simp only [parseDocs, List.append_assoc, readUL_writeURaw, ht, hd, hrd, hl, if_false]
     by_cases hm : more.isEmpty = true
     · simp only [hm, if_true]
-    · simp only [hm, if_false]
+    · simp only [hm]
       cases parseDocs f more (some (normDoc d)) <;> rfl
 
 /-- the document loop on the serialisation of canonical documents -/
